@@ -44,6 +44,9 @@ def concrete_item(kind):
     return dict(t=kind, v=KTEXT[kind])
 
 
+_rot = [0]
+
+
 def to_step(act):
     a = act["args"]
     op = act["op"]
@@ -54,7 +57,12 @@ def to_step(act):
     if op == "Begin":
         return dict(op=op, slot=a[0], sev=a[1], tag=a[2])
     if op == "Stream":
-        return dict(op=op, slot=a[0], item=concrete_item(a[1]))
+        it = concrete_item(a[1])
+        if it["t"] == "c":
+            # the model's callable is, in turn, a functor, a std::function, a function pointer and a function passed by name
+            _rot[0] += 1
+            it = dict(it, t="cfpn"[_rot[0] % 4])
+        return dict(op=op, slot=a[0], item=it)
     if op == "Move":
         return dict(op=op, slot=a[0], to=a[1])
     return dict(op=op, slot=a[0])
